@@ -121,7 +121,7 @@ theorem openRec_frame (s : State) (c : Bool) (t : Target) (m : Mode) : Frame s (
            · exact openExisting_frame _ _ _ _)
 
 theorem mergeFiles_frame (s : State) (t : Name) : Frame s (mergeFiles s t) := by
-  rcases mergeFiles_spec s t with hf | ⟨_, _, _, _, _, _, _, _, hfr, _, hside, hbase⟩
+  rcases mergeFiles_spec s t with hf | ⟨_, _, _, _, _, _, _, _, hfr, _, _, hside, hbase⟩
   · exact hf.frame
   · intro g hg
     by_cases h1 : g = baseFile t
@@ -509,7 +509,7 @@ theorem openRec_inv (s : State) (c : Bool) (t : Target) (m : Mode) (hsafe : (Op.
 
 /-! ### merge -/
 theorem mergeFiles_touch (s : State) (t : Name) : ∀ f ∈ (mergeFiles s t).W, Touchable s.disk f := by
-  rcases mergeFiles_spec s t with hf | ⟨_, _, _, hfresh, _, _, _, hW, _, _, _, _⟩
+  rcases mergeFiles_spec s t with hf | ⟨_, _, _, hfresh, _, _, _, hW, _, _, _, _, _⟩
   · exact touch_of_failed hf
   · intro g hg
     rcases hW g hg with rfl | rfl
@@ -517,7 +517,7 @@ theorem mergeFiles_touch (s : State) (t : Name) : ∀ f ∈ (mergeFiles s t).W, 
     · exact Or.inr (Or.inr ⟨_, rfl, Or.inl ⟨hfresh, baseFile_last _⟩⟩)
 
 theorem mergeFiles_inv (s : State) (t : Name) (hi : Inv s) : Inv (mergeFiles s t).st := by
-  rcases mergeFiles_spec s t with hf | ⟨_, hnw, _, hfresh, _, hh, _, _, hfr, _, hside, _⟩
+  rcases mergeFiles_spec s t with hf | ⟨_, hnw, _, hfresh, _, hh, _, _, hfr, _, _, hside, _⟩
   · exact inv_of_failed hi hf
   · constructor
     · intro g ub p hg
